@@ -200,6 +200,75 @@ def registry(chk, phase="after import"):
     chk.ev.coverage["registry"] = {"defined_names": len(defined), "registry_size": len(L.ALL_TYPES_MAP)}
 
 
+FIRST_CONVERTERS = {
+    "the default one": "converters.get_converter()",
+    "a caller-supplied cattrs.Converter": "converters.get_converter(cattrs.Converter())",
+    "a caller-supplied converter without detailed validation": "converters.get_converter(cattrs.Converter(detailed_validation=False))",
+    "register_hooks on a caller-supplied converter": "_hooks.register_hooks(cattrs.Converter())",
+}
+_FWD_CODE = """
+import json, sys, typing, attrs, cattrs
+from lsprotocol import types, converters, _hooks
+conv = %s
+def resolved(t, depth=0):
+    if isinstance(t, (str, typing.ForwardRef)):
+        return False
+    if typing.get_origin(t) is typing.Literal:
+        return True
+    return all(resolved(a, depth + 1) for a in typing.get_args(t)) if depth < 8 else True
+rows = {}
+for name, cls in types.ALL_TYPES_MAP.items():
+    if isinstance(cls, type) and attrs.has(cls):
+        for f in attrs.fields(cls):
+            rows[name + "." + f.name] = resolved(f.type)
+# and the message classes of the catalogue can be looked up for structuring
+for m, tup in types.METHOD_TO_TYPES.items():
+    for i, t in enumerate(tup[:2]):
+        if t is not None:
+            try:
+                conv.get_structure_hook(t)
+                for f in attrs.fields(t):
+                    if not isinstance(f.type, (str, typing.ForwardRef)):
+                        conv.get_structure_hook(f.type)
+                rows["%%s[%%d]" %% (m, i)] = True
+            except Exception as e:
+                rows["%%s[%%d]" %% (m, i)] = False
+print(json.dumps(rows))
+"""
+
+
+def forward_references(chk):
+    """'all forward references resolve when a converter is first created': in a fresh interpreter per kind of first
+    converter, every field type of every registry class is free of strings / ForwardRef afterwards and cattrs finds a
+    structure function for every message class of the catalogue and the types of its fields"""
+    import json
+    import os
+    import subprocess
+    import sys
+
+    for label, expr in FIRST_CONVERTERS.items():
+        code = _FWD_CODE % expr
+        try:
+            p = subprocess.run([sys.executable, "-c", code], capture_output=True, text=True, timeout=300, env=dict(os.environ))
+            rows = json.loads(p.stdout.strip().splitlines()[-1])
+        except Exception as e:
+            err = (p.stderr.strip().splitlines() or ["?"])[-1] if "p" in locals() else str(e)
+            rcode = "import subprocess, sys\nCODE = %r\ndef replay():\n    p = subprocess.run([sys.executable, '-c', CODE], capture_output=True, text=True)\n    return (p.returncode == 0, (p.stderr.strip().splitlines() or ['?'])[-1])\n" % code
+            chk.violation("creating %s as the first converter of a process fails: %s" % (label, err[:200]), {"kind": "python", "code": rcode, "site": "first converter: " + label})
+            continue
+        got = {(k, "resolved"): v for k, v in rows.items()}
+        want = {k: True for k in got}
+        for (name, _), w, g in relation_query(chk, "forward_references_after_first_converter_%d" % list(FIRST_CONVERTERS).index(label), want, got):
+            rcode = (
+                "import subprocess, sys, json\nCODE = %r\n"
+                "def replay():\n    p = subprocess.run([sys.executable, '-c', CODE], capture_output=True, text=True)\n"
+                "    rows = json.loads(p.stdout.strip().splitlines()[-1])\n    return (rows.get(%r) is True, 'after %s was created first, %s is unresolved / has no structure function')\n"
+            ) % (code, name, label, name)
+            chk.violation("forward references after %s was created first: %s not resolved" % (label, name), {"kind": "python", "code": rcode, "site": "forward reference " + name})
+            break  # one witness per kind of first converter
+        chk.ev.coverage.setdefault("forward_references", {})[label] = len(rows)
+
+
 PREAMBLE = ["from props import c09rt as V"]
 
 
@@ -226,6 +295,7 @@ def check(tier):
 
     converters.get_converter()
     registry(chk, "after the first converter was created")
+    forward_references(chk)
     sl = 24 if tier == "thorough" else 12
     ls = [
         xh.Lemma("dir_unknown", [("s", "str")], ["return V.direction_unknown(s)"], pre=["len(s) <= %d" % sl, "s not in V.METHODS"], meta={"site": "message_direction(s) for s outside the 95 methods raises KeyError"}),
